@@ -265,7 +265,12 @@ func ruleOptions(c *Ctx, prefix string) {
 				lstNil, _ := histFact(st, "nil", regexp.MustCompile(`^\(\*`+reQ(pkgDHCP4)+`\.DHCPv4\)\.ParameterRequestList(@(?:[\w$]+·)?t\d+)?\(\$0\)$`))
 				lenPos := histLenPos(st, regexp.MustCompile(`^len\(.*ParameterRequestList`))
 				member, _ := histFact(st, "bool", regexp.MustCompile(`^\(`+reQ(pkgDHCP4)+`\.OptionCodeList\)\.Has(@(?:[\w$]+·)?t\d+)?\(\(\*`+reQ(pkgDHCP4)+`\.DHCPv4\)\.ParameterRequestList(@(?:[\w$]+·)?t\d+)?\(\$0\),`+reQ(code)+`\)$`))
-				present := or3(has, not3(lstNil), lenPos)
+				// Options.Has(55) does not make the list present in the codec's sense: a zero-length
+				// option 55 is stored as a nil value, ParameterRequestList() then returns nil and
+				// IsOptionRequested answers true - for a client that listed nothing
+				_ = has
+				rawPos := histLenPos(st, regexp.MustCompile(`^len\(\(`+reQ(pkgDHCP4)+`\.Options\)\.Get(@(?:[\w$]+·)?t\d+)?\(\$0\.Options,`+reQ(prl)+`\)\)$`))
+				present := or3(not3(lstNil), lenPos, rawPos)
 				return or3(member, and3(req, present))
 			},
 			Global: []string{pp + "ipv6only.v6only_wait"}, Stop: &tr}}, NoEmitStop: false},
